@@ -8,6 +8,20 @@ use crate::utils::expressions_as_statement;
 
 use super::verify_no_rule_properties;
 
+const DISCARD_VARIABLE: &str = "_";
+
+/// Turns discarded values into a statement. A bare `local _ = ...` would shadow a variable
+/// named `_` in the statements that follow, so it gets its own block, unless the declaration
+/// it replaces already declared `_`.
+fn discarded_values_as_statement(values: Vec<Expression>, declares_discard: bool) -> Statement {
+    match expressions_as_statement(values) {
+        Statement::LocalAssign(assign) if !declares_discard => {
+            DoStatement::new(Block::default().with_statement(assign)).into()
+        }
+        other => other,
+    }
+}
+
 #[derive(Default)]
 struct RemoveUnusedVariableProcessor {
     evaluator: Evaluator,
@@ -117,6 +131,10 @@ impl NodeProcessor for RemoveUnusedVariableProcessor {
 
                 if found {
                     let keep_statement = if let Statement::LocalAssign(assign) = statement {
+                        let declares_discard = assign
+                            .iter_variables()
+                            .any(|variable| variable.get_name() == DISCARD_VARIABLE);
+
                         if usages.iter().all(|used| !used) {
                             let values = assign
                                 .iter_values()
@@ -127,7 +145,7 @@ impl NodeProcessor for RemoveUnusedVariableProcessor {
                             if values.is_empty() {
                                 false
                             } else {
-                                *statement = expressions_as_statement(values);
+                                *statement = discarded_values_as_statement(values, declares_discard);
                                 true
                             }
                         } else if usages.iter().any(|used| !used)
@@ -202,7 +220,8 @@ impl NodeProcessor for RemoveUnusedVariableProcessor {
                                 if extra_values.is_empty() {
                                     false
                                 } else {
-                                    *statement = expressions_as_statement(extra_values);
+                                    *statement =
+                                        discarded_values_as_statement(extra_values, declares_discard);
                                     true
                                 }
                             } else {
